@@ -1,17 +1,46 @@
-// C16 conformance harness: one group of source ranges (see c16_range.hpp).  Drives and records only.
+// C16 conformance harness: static-size source ranges (see c16_range.hpp).  Drives and records only.
+// checks/c16.py compiles this file three times (-DC16_STATIC_ARRAYS / _TUPLES / _MPL: parts "static",
+// "static2", "static3") to keep the translation units small; without a macro all three are compiled.
+#if !defined(C16_STATIC_ARRAYS) && !defined(C16_STATIC_TUPLES) && !defined(C16_STATIC_MPL)
+#define C16_STATIC_ARRAYS
+#define C16_STATIC_TUPLES
+#define C16_STATIC_MPL
+#endif
 #include "c16_range.hpp"
 
-namespace c16
+#ifdef C16_STATIC_ARRAYS
+// entry point of part "static" (see c16_main.cpp): fcppt::array::object sources
+extern "C" void c16_part_static(unsigned long long const seed, int const thorough_flag)
 {
-void run_static(Sel &sel, bool)
-{
+  using namespace c16;
+  Sel sel(seed, thorough_flag != 0);
   array_source<0>(sel);
   array_source<1>(sel);
   array_source<2>(sel);
   array_source<3>(sel);
   array_source<4>(sel);
   array_source<5>(sel);
+  array_source_sampled<6>(sel, 6);
+  array_source_sampled<9>(sel, 4);
+}
+#endif
+
+#ifdef C16_STATIC_TUPLES
+// entry point of part "static2": fcppt::tuple::object sources
+extern "C" void c16_part_static2(unsigned long long const seed, int const thorough_flag)
+{
+  using namespace c16;
+  Sel sel(seed + 1U, thorough_flag != 0);
   tuple_sources(sel);
+}
+#endif
+
+#ifdef C16_STATIC_MPL
+// entry point of part "static3": fcppt::mpl::list::object sources
+extern "C" void c16_part_static3(unsigned long long const seed, int const thorough_flag)
+{
+  using namespace c16;
+  Sel sel(seed + 2U, thorough_flag != 0);
   mpl_sources(sel);
 }
-}
+#endif
